@@ -2,6 +2,7 @@
 //!
 //! Ops (see `lean/BarterModel/Driver/C08.lean`):
 //!   `init <direct|async> <latency_ms> <fee> <n> <bal>*n <k> <base:quote>*k`
+//!        the mode may carry a configuration shape `:<m|b|k>:<tok>.<tok>…` (see `parse_mode`)
 //!   `open <t> <instr> <B|S> <M|L> <price> <qty> <strategy> <cid> [<ioc|fok|day|gtc|gtcp>]`
 //!        (time in force; default ioc for market, gtc for limit; when given, the response's
 //!        time in force is printed as `echo_tif`)
@@ -31,7 +32,21 @@ use barter_instrument::{
     Side, Underlying,
     asset::{QuoteAsset, name::AssetNameExchange},
     exchange::ExchangeId,
-    instrument::{Instrument, name::InstrumentNameExchange},
+    instrument::{
+        Instrument,
+        kind::{
+            InstrumentKind,
+            future::FutureContract,
+            option::{OptionContract, OptionExercise, OptionKind},
+            perpetual::PerpetualContract,
+        },
+        name::InstrumentNameExchange,
+        quote::InstrumentQuoteAsset,
+        spec::{
+            InstrumentSpec, InstrumentSpecNotional, InstrumentSpecPrice, InstrumentSpecQuantity,
+            OrderQuantityUnits,
+        },
+    },
 };
 use chrono::{DateTime, TimeZone, Utc};
 use fnv::FnvHashMap;
@@ -45,6 +60,157 @@ use tokio::sync::{broadcast, mpsc};
 use vh::*;
 
 const EXCHANGE: ExchangeId = ExchangeId::Mock;
+
+// ------------------------------------------------------------------ configuration shape (`cfg` cases)
+//
+// The mode token of `init` may carry a SHAPE: `<direct|async>:<e>:<tok>.<tok>…` (one token per
+// instrument, none for k = 0). `<e>` = the exchange id the mock stands for (`m` Mock, `b` BinanceSpot,
+// `k` Kraken: `MockExecutionConfig::mocked_exchange`, the snapshot's and every instrument's exchange, the
+// client's `mocked_exchange` and the exchange of every request key). A token is `<K><Q><S><C>[+]`:
+// K = s|p|f|o (spot / perpetual / future / option), Q = q|b (`InstrumentQuoteAsset::UnderlyingQuote` /
+// `UnderlyingBase`), S = one digit: the settlement asset of a derivative (any asset index, also one
+// without balance; ignored for spot), C = u|t|c contract size 1 / 10 / 0.01 (ignored for spot), `+` =
+// an `InstrumentSpec` with large minima is present. `MockExchange::new` is public and takes any
+// `Instrument`; no path of `open_order` reads anything but `underlying`, so the model ignores the shape.
+// Without a shape everything is as before: Mock, spot, quoted in the underlying quote, no spec.
+thread_local! {
+    static CUR_EXCHANGE: std::cell::Cell<ExchangeId> = const { std::cell::Cell::new(EXCHANGE) };
+}
+
+fn exch() -> ExchangeId {
+    CUR_EXCHANGE.with(|c| c.get())
+}
+
+/// an exchange id seen in an answer that is not the configured one (never printed on the real code)
+fn check_exch(seen: ExchangeId, place: &str, lines: &mut Vec<String>) {
+    if seen != exch() {
+        lines.push(format!("exch-mismatch {place} {seen:?}"));
+    }
+}
+
+#[derive(Clone)]
+struct IShape {
+    kind: char,
+    quote_base: bool,
+    settle: usize,
+    csize: Decimal,
+    spec: bool,
+}
+
+fn parse_ishape(tok: &str) -> Option<IShape> {
+    let c: Vec<char> = tok.chars().collect();
+    if !(c.len() == 4 || (c.len() == 5 && c[4] == '+')) {
+        return None;
+    }
+    Some(IShape {
+        kind: "spfo".contains(c[0]).then_some(c[0])?,
+        quote_base: match c[1] {
+            'q' => false,
+            'b' => true,
+            _ => return None,
+        },
+        settle: c[2].to_digit(10)? as usize,
+        csize: match c[3] {
+            'u' => Decimal::ONE,
+            't' => Decimal::TEN,
+            'c' => Decimal::new(1, 2),
+            _ => return None,
+        },
+        spec: c.len() == 5,
+    })
+}
+
+/// `(mode, shape)`; `None` = ill-formed (`bad-op`, as in the driver's `parseMode`)
+fn parse_mode(tok: &str) -> Option<(bool, Option<(ExchangeId, Vec<IShape>)>)> {
+    let parts: Vec<&str> = tok.split(':').collect();
+    let is_async = match parts[0] {
+        "async" => true,
+        "direct" => false,
+        _ => return None,
+    };
+    match parts.len() {
+        1 => Some((is_async, None)),
+        3 => {
+            let e = match parts[1] {
+                "m" => ExchangeId::Mock,
+                "b" => ExchangeId::BinanceSpot,
+                "k" => ExchangeId::Kraken,
+                _ => return None,
+            };
+            let toks: Vec<&str> = if parts[2].is_empty() { vec![] } else { parts[2].split('.').collect() };
+            let shapes = toks.iter().map(|t| parse_ishape(t)).collect::<Option<Vec<_>>>()?;
+            Some((is_async, Some((e, shapes))))
+        }
+        _ => None,
+    }
+}
+
+/// the shape is well formed and has one token per instrument
+fn init_shape_ok(op: &[String]) -> bool {
+    let Some((_, shape)) = op.get(1).and_then(|m| parse_mode(m)) else { return false };
+    match shape {
+        None => true,
+        Some((_, shapes)) => {
+            let k = op
+                .get(4)
+                .and_then(|n| n.parse::<usize>().ok())
+                .and_then(|n| op.get(5 + n))
+                .and_then(|k| k.parse::<usize>().ok());
+            k == Some(shapes.len())
+        }
+    }
+}
+
+fn build_instrument(
+    i: usize,
+    b: usize,
+    q: usize,
+    sh: Option<&IShape>,
+) -> Instrument<ExchangeId, AssetNameExchange> {
+    let name = instr_name(i);
+    let underlying = Underlying::new(asset_name(b), asset_name(q));
+    let Some(sh) = sh else {
+        return Instrument::spot(exch(), format!("mock-i{i}"), name, underlying, None);
+    };
+    let settlement_asset = asset_name(sh.settle);
+    let contract_size = sh.csize;
+    let expiry = time_ms(1_900_000_000_000);
+    let kind = match sh.kind {
+        's' => InstrumentKind::Spot,
+        'p' => InstrumentKind::Perpetual(PerpetualContract { contract_size, settlement_asset }),
+        'f' => InstrumentKind::Future(FutureContract { contract_size, settlement_asset, expiry }),
+        _ => InstrumentKind::Option(OptionContract {
+            contract_size,
+            settlement_asset,
+            kind: if i % 2 == 0 { OptionKind::Call } else { OptionKind::Put },
+            exercise: if i % 2 == 0 { OptionExercise::European } else { OptionExercise::American },
+            expiry,
+            strike: Decimal::new(100, 0),
+        }),
+    };
+    let spec = sh.spec.then(|| InstrumentSpec {
+        price: InstrumentSpecPrice { min: Decimal::new(1_000_000, 0), tick_size: Decimal::new(1000, 0) },
+        quantity: InstrumentSpecQuantity {
+            unit: match sh.kind {
+                's' => OrderQuantityUnits::Asset(asset_name(b)),
+                'p' => OrderQuantityUnits::Contract,
+                _ => OrderQuantityUnits::Quote,
+            },
+            min: Decimal::new(1_000_000, 0),
+            increment: Decimal::new(1000, 0),
+        },
+        notional: InstrumentSpecNotional { min: Decimal::new(1_000_000_000, 0) },
+    });
+    Instrument::new(
+        exch(),
+        format!("mock-i{i}"),
+        name,
+        underlying,
+        if sh.quote_base { InstrumentQuoteAsset::UnderlyingBase } else { InstrumentQuoteAsset::UnderlyingQuote },
+        kind,
+        spec,
+    )
+}
 
 fn time_ms(ms: i64) -> DateTime<Utc> {
     Utc.timestamp_millis_opt(ms).unwrap()
@@ -81,11 +247,9 @@ struct Setup {
 }
 
 fn parse_init(op: &[String]) -> Setup {
-    let is_async = match op[1].as_str() {
-        "async" => true,
-        "direct" => false,
-        other => panic!("bad mode {other}"),
-    };
+    let (is_async, shape) = parse_mode(&op[1]).unwrap_or_else(|| panic!("bad mode {}", op[1]));
+    CUR_EXCHANGE.with(|c| c.set(shape.as_ref().map_or(EXCHANGE, |s| s.0)));
+    let shapes = shape.map(|s| s.1);
     let latency_ms: u64 = op[2].parse().unwrap();
     let fees_percent = parse_dec(&op[3]);
     let n: usize = op[4].parse().unwrap();
@@ -109,25 +273,15 @@ fn parse_init(op: &[String]) -> Setup {
         .map(|i| {
             let (b, q) = op[6 + n + i].split_once(':').expect("base:quote");
             let (b, q): (usize, usize) = (b.parse().unwrap(), q.parse().unwrap());
-            let name = instr_name(i);
-            (
-                name.clone(),
-                Instrument::spot(
-                    EXCHANGE,
-                    format!("mock-i{i}"),
-                    name,
-                    Underlying::new(asset_name(b), asset_name(q)),
-                    None,
-                ),
-            )
+            (instr_name(i), build_instrument(i, b, q, shapes.as_ref().map(|s| &s[i])))
         })
         .collect();
     Setup {
         is_async,
         config: MockExecutionConfig {
-            mocked_exchange: EXCHANGE,
+            mocked_exchange: exch(),
             initial_state: UnindexedAccountSnapshot {
-                exchange: EXCHANGE,
+                exchange: exch(),
                 balances,
                 instruments: vec![],
             },
@@ -232,6 +386,7 @@ fn bal_lines(mut bs: Vec<AssetBalance<AssetNameExchange>>, lines: &mut Vec<Strin
 }
 
 fn snapshot_lines(s: UnindexedAccountSnapshot, lines: &mut Vec<String>) {
+    check_exch(s.exchange, "snapshot", lines);
     bal_lines(s.balances, lines);
     lines.push(format!("instruments {}", s.instruments.len()));
 }
@@ -243,7 +398,9 @@ fn notif_lines(events: &[UnindexedAccountEvent], lines: &mut Vec<String>) {
     let mut order = String::new();
     let mut detail = Vec::new();
     for ev in events {
-        assert_eq!(ev.exchange, EXCHANGE);
+        if ev.exchange != exch() {
+            detail.push(format!("exch-mismatch event {:?}", ev.exchange));
+        }
         match &ev.kind {
             AccountEventKind::BalanceSnapshot(b) => {
                 nb += 1;
@@ -292,6 +449,10 @@ fn response_lines(
 ) {
     let start = lines.len();
     response_lines_(r, lines);
+    check_exch(r.key.exchange, "response", lines);
+    if let Err(OrderError::Connectivity(ConnectivityError::ExchangeOffline(e))) = &r.state {
+        check_exch(*e, "offline", lines);
+    }
     if tif_given {
         // directly after the `echo` line
         lines.insert(start + 2, format!("echo_tif {}", tif_s(r.time_in_force)));
@@ -363,7 +524,7 @@ fn run_direct(setup: Setup, ops: &[Vec<String>], lines: &mut Vec<String>) {
                 let tif_given = a.tif_given;
                 let request = OrderRequestOpen {
                     key: OrderKey {
-                        exchange: EXCHANGE,
+                        exchange: exch(),
                         instrument: a.instrument,
                         strategy: a.strategy,
                         cid: a.cid,
@@ -374,8 +535,8 @@ fn run_direct(setup: Setup, ops: &[Vec<String>], lines: &mut Vec<String>) {
                 response_lines(&response, tif_given, lines);
                 let events: Vec<UnindexedAccountEvent> = match notifications {
                     Some(n) => vec![
-                        UnindexedAccountEvent { exchange: EXCHANGE, kind: n.balance.into() },
-                        UnindexedAccountEvent { exchange: EXCHANGE, kind: n.trade.into() },
+                        UnindexedAccountEvent { exchange: exch(), kind: n.balance.into() },
+                        UnindexedAccountEvent { exchange: exch(), kind: n.trade.into() },
                     ],
                     None => vec![],
                 };
@@ -407,7 +568,7 @@ fn run_async(setup: Setup, ops: &[Vec<String>], lines: &mut Vec<String>) {
             move || time_ms(now.load(Ordering::SeqCst))
         };
         let client = <MockExecution<_> as ExecutionClient>::new(MockExecutionClientConfig {
-            mocked_exchange: EXCHANGE,
+            mocked_exchange: exch(),
             clock,
             request_tx,
             event_rx,
@@ -429,7 +590,7 @@ fn run_async(setup: Setup, ops: &[Vec<String>], lines: &mut Vec<String>) {
                     let a = parse_open(op);
                     let request = OrderRequestOpen {
                         key: OrderKey {
-                            exchange: EXCHANGE,
+                            exchange: exch(),
                             instrument: &a.instrument,
                             strategy: a.strategy,
                             cid: a.cid,
@@ -482,7 +643,7 @@ fn run_async(setup: Setup, ops: &[Vec<String>], lines: &mut Vec<String>) {
                     let name = instr_name(0);
                     let request = OrderRequestCancel {
                         key: OrderKey {
-                            exchange: EXCHANGE,
+                            exchange: exch(),
                             instrument: &name,
                             strategy: StrategyId::new("s0"),
                             cid: ClientOrderId::new("c0"),
@@ -492,9 +653,11 @@ fn run_async(setup: Setup, ops: &[Vec<String>], lines: &mut Vec<String>) {
                     let response = client.cancel_order(request).await;
                     // the exchange drops the oneshot sender without answering: the client reports
                     // `ExchangeOffline`
+                    check_exch(response.key.exchange, "cancel", lines);
                     match response.state {
-                        Err(OrderError::Connectivity(ConnectivityError::ExchangeOffline(_))) => {
-                            lines.push("resp none".into())
+                        Err(OrderError::Connectivity(ConnectivityError::ExchangeOffline(e))) => {
+                            lines.push("resp none".into());
+                            check_exch(e, "offline", lines);
                         }
                         other => lines.push(format!("resp cancel {other:?}").replace(' ', "_")),
                     }
@@ -524,7 +687,7 @@ fn run() {
     run_cases(|case, lines| {
         let Some(first) = case.ops.first() else { return };
         lines.push("@".into());
-        if first[0] != "init" {
+        if first[0] != "init" || !init_shape_ok(first) {
             lines.push("bad-op".into());
             return;
         }
@@ -845,6 +1008,81 @@ fn gen_dom_case(rng: &mut Rng, out: &mut Out, big: bool) {
     }
 }
 
+// ----------------------------------------------------------- configuration-shape family (`cfg` cases)
+
+/// CONFIGURATION-SHAPE family (own PRNG stream; every other case stays byte for byte as it was). The
+/// set-up shapes the other families fix: the exchange id the mock stands for (always `Mock` before; here
+/// also BinanceSpot / Kraken), the KIND of the instruments handed to `MockExchange::new` (always spot,
+/// quoted in the underlying quote, no `InstrumentSpec` before; here perpetual / future / option with a
+/// settlement asset that is the quote, the base, a third asset or one without balance, contract sizes
+/// 1 / 10 / 0.01, in-kind quoting, a spec with large minima), an account without any balance (0 assets),
+/// up to 4 instruments. Well formed only; requests as in the random family (normal magnitudes).
+fn gen_cfg_case(rng: &mut Rng, out: &mut Out, big: bool) {
+    let is_async = rng.chance(70);
+    let e = *rng.pick(&["m", "b", "b", "k", "k"]);
+    let latency = *rng.pick(&[0u64, 1, 2, 7, 100]);
+    let fee = *rng.pick(&["0", "0", "0.01", "0.25", "0.5"]);
+    let n_assets = if rng.chance(8) { 0 } else { rng.range(1, 5) as usize };
+    let bals: Vec<String> = (0..n_assets)
+        .map(|_| match rng.below(5) {
+            0 => "0".to_string(),
+            1 => d(rng.range(1, 30), 0),
+            2 => d(rng.range(1, 300_000), 2),
+            _ => d(rng.range(50, 2000), 0),
+        })
+        .collect();
+    let k = if n_assets == 0 { 0 } else { rng.range(0, 4) as usize };
+    let instruments: Vec<(usize, usize)> = (0..k)
+        .map(|_| (rng.below(n_assets as u64) as usize, rng.below(n_assets as u64) as usize))
+        .collect();
+    let shapes: Vec<String> = (0..k)
+        .map(|_| {
+            format!(
+                "{}{}{}{}{}",
+                *rng.pick(&["s", "p", "p", "f", "o"]),
+                if rng.chance(25) { "b" } else { "q" },
+                rng.below((n_assets as u64 + 2).min(10)),
+                *rng.pick(&["u", "t", "t", "c"]),
+                if rng.chance(40) { "+" } else { "" }
+            )
+        })
+        .collect();
+    out.line(format!(
+        "init {}:{e}:{} {latency} {fee} {n_assets}{} {k}{}",
+        if is_async { "async" } else { "direct" },
+        shapes.join("."),
+        bals.iter().map(|b| format!(" {b}")).collect::<String>(),
+        instruments.iter().map(|(b, q)| format!(" {b}:{q}")).collect::<String>()
+    ));
+    let w = World { latency: latency as i64, n_assets, instruments, mag: Mag::Normal };
+    let len = rng.range(1, if big { 40 } else { 20 });
+    let mut t: i64 = rng.range(0, 5);
+    for _ in 0..len {
+        t += *rng.pick(&[0i64, 0, 1, 1, 2, 50]);
+        let r = rng.below(100);
+        if !is_async {
+            if r < 80 {
+                out.line(gen_open(rng, &w, t));
+            } else {
+                out.line(format!("snap {t}"));
+            }
+        } else if r < 65 {
+            out.line(gen_open(rng, &w, t));
+        } else if r < 75 {
+            out.line(format!("snap {t}"));
+        } else if r < 83 {
+            out.line(format!("balances {t}"));
+        } else if r < 93 {
+            let since = if rng.chance(30) { 0 } else { t + w.latency / 2 - rng.range(-2, 12) };
+            out.line(format!("trades {t} {since}"));
+        } else if r < 96 {
+            out.line(format!("orders {t}"));
+        } else {
+            out.line(format!("cancel {t}"));
+        }
+    }
+}
+
 // In malformed (direct) cases every market order on a known instrument is treated as possibly
 // panicking, so it ends the case: conservative and independent of the balances.
 fn op_may_panic(op: &str, w: &World) -> bool {
@@ -918,6 +1156,14 @@ fn generate(seed: u64, n_cases: usize, tier: &str) {
         out.case(format!("d{id}"));
         let mut r = drng.fork();
         gen_dom_case(&mut r, &mut out, big);
+    }
+    // configuration-shape family: a quarter as many cases again, from its own PRNG stream
+    let mut crng = Rng::new(seed ^ 0x0C08_CF61_5EED);
+    for _ in 0..n_cases.div_ceil(4) {
+        id += 1;
+        out.case(format!("cfg{id}"));
+        let mut r = crng.fork();
+        gen_cfg_case(&mut r, &mut out, big);
     }
     out.flush();
 }
